@@ -41,6 +41,98 @@ with rec_ind' (r : rec) : Q r :=
   end.
 End FvalInd.
 
+(* ---------- untyped legacy payloads (stringlist / dictlist / dynamic) ---------- *)
+Section PyvInd.
+Variable P : pyv -> Prop.
+Hypothesis Hn : P YNone. Hypothesis Hb : forall b, P (YBool b). Hypothesis Hi : forall z, P (YInt z).
+Hypothesis Hf : forall n, P (YFloat n). Hypothesis Hs : forall s, P (YStr s). Hypothesis Hy : forall s, P (YBytes s).
+Hypothesis Hl : forall l, Forall P l -> P (YList l).
+Hypothesis Ht : forall l, Forall P l -> P (YTuple l).
+Hypothesis Hd : forall l, Forall (fun kx => P (fst kx) /\ P (snd kx)) l -> P (YDict l).
+Fixpoint pyv_ind' (v : pyv) : P v :=
+  match v with
+  | YNone => Hn | YBool b => Hb b | YInt z => Hi z | YFloat n => Hf n | YStr s => Hs s | YBytes s => Hy s
+  | YList l => Hl l ((fix go (l : list pyv) : Forall P l :=
+                        match l with [] => Forall_nil _ | a :: t => Forall_cons a (pyv_ind' a) (go t) end) l)
+  | YTuple l => Ht l ((fix go (l : list pyv) : Forall P l :=
+                         match l with [] => Forall_nil _ | a :: t => Forall_cons a (pyv_ind' a) (go t) end) l)
+  | YDict l => Hd l ((fix go (l : list (pyv * pyv)) : Forall (fun kx => P (fst kx) /\ P (snd kx)) l :=
+                        match l with
+                        | [] => Forall_nil _
+                        | (k, a) :: t => Forall_cons (k, a) (conj (pyv_ind' k) (pyv_ind' a)) (go t)
+                        end) l)
+  end.
+End PyvInd.
+
+(* payloads that survive: the top level is a list, nested sequences are tuples (the unpacker runs with
+   use_list=False), mapping keys are text or bytes (strict_map_key) *)
+Fixpoint py_okb (top : bool) (v : pyv) {struct v} : bool :=
+  match v with
+  | YList l => top && (fix go (l : list pyv) := match l with [] => true | a :: t => py_okb false a && go t end) l
+  | YTuple l => negb top && (fix go (l : list pyv) := match l with [] => true | a :: t => py_okb false a && go t end) l
+  | YDict l => (fix go (l : list (pyv * pyv)) :=
+                  match l with
+                  | [] => true
+                  | (k, a) :: t => match k with YStr _ | YBytes _ => true | _ => false end && py_okb false a && go t
+                  end) l
+  | _ => true
+  end.
+
+Lemma all_some_map'' {A B} (f : A -> option B) (g : A -> B) l :
+  Forall (fun a => f a = Some (g a)) l -> all_some (map f l) = Some (map g l).
+Proof. induction 1 as [|a t Ha _ IH]; [reflexivity|]. cbn [map all_some]. rewrite Ha, IH. reflexivity. Qed.
+
+Lemma pack_py_seq l : (fix go (l : list pyv) : list xv := match l with [] => [] | a :: t => pack_py a :: go t end) l = map pack_py l.
+Proof. induction l as [|a t IH]; [reflexivity|]. cbn [map]. f_equal; exact IH. Qed.
+
+Lemma unpack_py_arr top l :
+  unpack_py top (XArr l) = match all_some (map (unpack_py false) l) with
+                           | Some r => Some (if top then YList r else YTuple r) | None => None end.
+Proof.
+  cbn [unpack_py].
+  assert (E : (fix go (l0 : list xv) : list (option pyv) := match l0 with [] => [] | a :: t => unpack_py false a :: go t end) l
+              = map (unpack_py false) l) by (induction l as [|a t IH]; [reflexivity|cbn [map]; f_equal; exact IH]).
+  rewrite E. reflexivity.
+Qed.
+
+Lemma unpack_py_pack : forall v top, py_okb top v = true -> unpack_py top (pack_py v) = Some v.
+Proof.
+  induction v using pyv_ind'; intros top Hok; try reflexivity.
+  - (* YList *)
+    cbn [py_okb] in Hok. apply andb_prop in Hok. destruct Hok as [Ht Hall]. subst top.
+    cbn [pack_py]. rewrite pack_py_seq, unpack_py_arr, map_map.
+    rewrite (all_some_map'' _ (fun a => a)); [rewrite map_id; reflexivity|].
+    clear - H Hall. induction H as [|a t Ha _ IH]; [constructor|].
+    apply andb_prop in Hall. destruct Hall as [H1 H2]. constructor; [apply Ha; exact H1|apply IH; exact H2].
+  - (* YTuple *)
+    cbn [py_okb] in Hok. apply andb_prop in Hok. destruct Hok as [Ht Hall]. apply negb_true_iff in Ht. subst top.
+    cbn [pack_py]. rewrite pack_py_seq, unpack_py_arr, map_map.
+    rewrite (all_some_map'' _ (fun a => a)); [rewrite map_id; reflexivity|].
+    clear - H Hall. induction H as [|a t Ha _ IH]; [constructor|].
+    apply andb_prop in Hall. destruct Hall as [H1 H2]. constructor; [apply Ha; exact H1|apply IH; exact H2].
+  - (* YDict *)
+    cbn [pack_py unpack_py].
+    assert (E : forall l0, Forall (fun kx => (forall top, py_okb top (fst kx) = true -> unpack_py top (pack_py (fst kx)) = Some (fst kx)) /\
+                                             (forall top, py_okb top (snd kx) = true -> unpack_py top (pack_py (snd kx)) = Some (snd kx))) l0 ->
+              py_okb top (YDict l0) = true ->
+              all_some ((fix go (l1 : list (xv * xv)) : list (option (pyv * pyv)) :=
+                           match l1 with
+                           | [] => []
+                           | (k, a) :: t =>
+                               match k, unpack_py false a with
+                               | XStr ks, Some a' => Some (YStr ks, a')
+                               | XBin kb, Some a' => Some (YBytes kb, a')
+                               | _, _ => None
+                               end :: go t
+                           end) ((fix go (l1 : list (pyv * pyv)) : list (xv * xv) :=
+                                    match l1 with [] => [] | (k, a) :: t => (pack_py k, pack_py a) :: go t end) l0)) = Some l0).
+    { induction 1 as [|[k a] t [_ Ha] _ IH]; intros Hk; [reflexivity|].
+      cbn [py_okb] in Hk. apply andb_prop in Hk. destruct Hk as [Hk Ht]. apply andb_prop in Hk. destruct Hk as [Hkk Hka].
+      cbn [fst snd] in *. cbn [all_some]. rewrite (Ha false Hka).
+      destruct k; try discriminate Hkk; cbn [pack_py]; rewrite (IH Ht); reflexivity. }
+    rewrite (E l H Hok). reflexivity.
+Qed.
+
 Section Values.
 Variable c : cfg.
 Variable HASH : desc -> Z.
@@ -77,7 +169,13 @@ Fixpoint val_okb (reg : registry) (t : ftype) (v : fval) {struct v} : bool :=
                | TList et => (fix go (l : list fval) := match l with [] => true | a :: tl => val_okb reg et a && go tl end) l
                | _ => false end
   | FRec r => match t with TRecord => rec_okb reg r | _ => false end
-  | FPy _ => false
+  | FPy v => match t with
+             | TStringlist | TDictlist => match v with YList _ => py_okb true v | _ => false end
+             | TDynamic => match v with
+                           | YNone | YFloat _ | YDict _ | YTuple _ => false
+                           | _ => py_okb true v
+                           end
+             | _ => false end
   end
 with rec_okb (reg : registry) (r : rec) {struct r} : bool :=
   match r with
@@ -249,7 +347,18 @@ Proof.
       pose proof (maxdepth_in l a Ha). lia.
   - (* FRec *) intros r IHr reg t dp Hok Hd. destruct t; try discriminate Hok.
     cbn [val_okb] in Hok. cbn [pack_f fdepth] in *. apply IHr; assumption.
-  - (* FPy *) intros v reg t dp Hok Hd. discriminate Hok.
+  - (* FPy *) intros v reg t dp Hok Hd. destruct dp; [lia|].
+    destruct t; try discriminate Hok; cbn [val_okb] in Hok.
+    + destruct v; try discriminate Hok. pose proof (unpack_py_pack (YList l) true Hok) as E.
+      cbn [pack_f]. destruct (pack_py (YList l)) eqn:EP; cbn [pack_py] in EP; try discriminate EP.
+      cbn [unpack_f]. rewrite E. reflexivity.
+    + destruct v; try discriminate Hok. pose proof (unpack_py_pack (YList l) true Hok) as E.
+      cbn [pack_f]. destruct (pack_py (YList l)) eqn:EP; cbn [pack_py] in EP; try discriminate EP.
+      cbn [unpack_f]. rewrite E. reflexivity.
+    + destruct v; try discriminate Hok; try reflexivity.
+      pose proof (unpack_py_pack (YList l) true Hok) as E.
+      cbn [pack_f]. destruct (pack_py (YList l)) eqn:EP; cbn [pack_py] in EP; try discriminate EP.
+      cbn [unpack_f]. rewrite E. reflexivity.
   - (* Rec *) intros d vals IHv reg dp Hok Hd. destruct dp; [lia|].
     rewrite rec_okb_unfold in Hok. apply andb_prop in Hok. destruct Hok as [Hok Hver].
     apply andb_prop in Hok. destruct Hok as [Hreg Hzip].
